@@ -84,7 +84,7 @@ func c11r1(r *R) {
 	}
 	r.check(n >= 4 && len(why) == 0, "handleLoop#register-close-uncount-unregister", hl.Pos(), fmt.Sprintf("all %d exits: Close → Add(-1) → locked delete; registration first", n), strings.Join(why, "; "))
 	// the removal closure
-	for _, lit := range hl.AnonFuncs {
+	for _, lit := range anonFuncs(hl) {
 		// while connsMu is held inside a deferred literal only the removal may happen
 		ls := lockset(lit)
 		good := true
@@ -295,7 +295,7 @@ func c11r4(r *R) {
 func c11r5(r *R) {
 	run := r.method(".", "HTTPProxy", "run")
 	var stop, serve *ssa.Function
-	for _, lit := range run.AnonFuncs {
+	for _, lit := range anonFuncs(run) {
 		if len(calls(lit, nameIs("(*martian.Proxy).Shutdown"))) > 0 {
 			stop = lit
 		}
